@@ -55,6 +55,9 @@ struct Planted {
     /// unique-constraint bookkeeping to probe through Cypher after the failed statement:
     /// (label, key, values) — `CREATE (:L {k: v})` must succeed iff no live node holds v under L
     cons_probe: Vec<(u32, u32, Vec<i64>)>,
+    /// the engine may answer OK (a constraint refusal inside ON CREATE / ON MATCH SET of a relationship MERGE is
+    /// dropped silently on the unchanged tree): C05 speaks only about statements that FAIL
+    may_succeed: bool,
 }
 
 fn s(v: &str) -> Ex {
@@ -100,7 +103,7 @@ fn gen_case(rng: &mut Rng, n: usize, pos: usize, which: u64) -> Planted {
         0 | 1 => {
             let kind = if which == 0 { Kind::Div0 } else { Kind::Type };
             let st = St { cls: vec![Cl::Unwind(Ex::List(poisoned_list(rng, n, pos, kind)), 0), Cl::Create(vec![CPath { a: NPat { props: vec![(0, fallible(kind)), (1, Ex::Var(0))], ..l1.clone() }, seg: None }])], ret: None };
-            Planted { setup, st, clause: "create", kind, pos, n, constrained: false, indexed, after: vec![], modelled: true, cons_probe: vec![] }
+            Planted { setup, st, clause: "create", kind, pos, n, constrained: false, indexed, after: vec![], modelled: true, cons_probe: vec![], may_succeed: false }
         }
         // CREATE path, failure in the relationship property
         2 => {
@@ -111,13 +114,13 @@ fn gen_case(rng: &mut Rng, n: usize, pos: usize, which: u64) -> Planted {
                 ],
                 ret: None,
             };
-            Planted { setup, st, clause: "createpath", kind: Kind::Div0, pos, n, constrained: false, indexed, after: vec![], modelled: true, cons_probe: vec![] }
+            Planted { setup, st, clause: "createpath", kind: Kind::Div0, pos, n, constrained: false, indexed, after: vec![], modelled: true, cons_probe: vec![], may_succeed: false }
         }
         // MERGE
         3 | 4 => {
             let kind = if which == 3 { Kind::Div0 } else { Kind::Type };
             let st = St { cls: vec![Cl::Unwind(Ex::List(poisoned_list(rng, n, pos, kind)), 0), Cl::Merge(NPat { props: vec![(0, fallible(kind))], ..l1.clone() }, vec![], vec![])], ret: None };
-            Planted { setup, st, clause: "merge", kind, pos, n, constrained: false, indexed, after: vec![], modelled: true, cons_probe: vec![] }
+            Planted { setup, st, clause: "merge", kind, pos, n, constrained: false, indexed, after: vec![], modelled: true, cons_probe: vec![], may_succeed: false }
         }
         // SET on one matched node per row
         5 | 6 => {
@@ -133,7 +136,7 @@ fn gen_case(rng: &mut Rng, n: usize, pos: usize, which: u64) -> Planted {
                 cls: vec![Cl::Unwind(Ex::List(rows), 0), Cl::MatchN(1, vec![1], vec![]), Cl::Filter(bin("eq", Ex::Prop(1, 2), Ex::Prop(0, 0))), Cl::Set(vec![SetItem::Prop(1, 0, rhs)])],
                 ret: None,
             };
-            Planted { setup, st, clause: "set", kind, pos, n, constrained: false, indexed, after: vec![], modelled: true, cons_probe: vec![] }
+            Planted { setup, st, clause: "set", kind, pos, n, constrained: false, indexed, after: vec![], modelled: true, cons_probe: vec![], may_succeed: false }
         }
         // duplicate value under a unique constraint: CREATE
         7 => {
@@ -145,7 +148,7 @@ fn gen_case(rng: &mut Rng, n: usize, pos: usize, which: u64) -> Planted {
                 vals[pos] = vals[rng.usize(pos)];
             }
             let st = St { cls: vec![Cl::Unwind(Ex::List(vals.iter().map(|v| int(*v)).collect()), 0), Cl::Create(vec![CPath { a: NPat { var: Some(1), labels: vec![0], props: vec![(0, Ex::Var(0))] }, seg: None }])], ret: None };
-            Planted { setup, st, clause: "create", kind: Kind::Dup, pos, n, constrained: true, indexed, after: vec![], modelled: true, cons_probe: vec![] }
+            Planted { setup, st, clause: "create", kind: Kind::Dup, pos, n, constrained: true, indexed, after: vec![], modelled: true, cons_probe: vec![], may_succeed: false }
         }
         // duplicate value under a unique constraint: SET
         8 => {
@@ -165,7 +168,7 @@ fn gen_case(rng: &mut Rng, n: usize, pos: usize, which: u64) -> Planted {
                 ],
                 ret: None,
             };
-            Planted { setup, st, clause: "set", kind: Kind::Dup, pos, n, constrained: true, indexed, after: vec![], modelled: true, cons_probe: vec![] }
+            Planted { setup, st, clause: "set", kind: Kind::Dup, pos, n, constrained: true, indexed, after: vec![], modelled: true, cons_probe: vec![], may_succeed: false }
         }
         // --- round 2: shapes a small edit of the write operators' clean-up could break unseen
         // bound start node, new end node, failure in the relationship property (after the end node was built)
@@ -184,7 +187,7 @@ fn gen_case(rng: &mut Rng, n: usize, pos: usize, which: u64) -> Planted {
                 ],
                 ret: None,
             };
-            Planted { setup, st, clause: "createfrommatch", kind: Kind::Div0, pos, n, constrained: false, indexed, after: vec![], modelled: true, cons_probe: vec![] }
+            Planted { setup, st, clause: "createfrommatch", kind: Kind::Div0, pos, n, constrained: false, indexed, after: vec![], modelled: true, cons_probe: vec![], may_succeed: false }
         }
         // two patterns in one CREATE, the second one fails (the first pattern's node must go too)
         11 => {
@@ -195,12 +198,12 @@ fn gen_case(rng: &mut Rng, n: usize, pos: usize, which: u64) -> Planted {
                 ],
                 ret: None,
             };
-            Planted { setup, st, clause: "create2", kind: Kind::Div0, pos, n, constrained: false, indexed, after: vec![], modelled: true, cons_probe: vec![] }
+            Planted { setup, st, clause: "create2", kind: Kind::Div0, pos, n, constrained: false, indexed, after: vec![], modelled: true, cons_probe: vec![], may_succeed: false }
         }
         // MERGE whose ON CREATE SET fails after the node was created
         12 => {
             let st = St { cls: vec![Cl::Unwind(Ex::List(poisoned_list(rng, n, pos, Kind::Div0)), 0), Cl::Merge(NPat { props: vec![(0, bin("add", Ex::Var(0), int(100 + pos as i64 * 10 + n as i64)))], ..l1.clone() }, vec![SetItem::Prop(1, 1, fallible(Kind::Div0))], vec![])], ret: None };
-            Planted { setup, st, clause: "mergeoncreate", kind: Kind::Div0, pos, n, constrained: false, indexed, after: vec![], modelled: true, cons_probe: vec![] }
+            Planted { setup, st, clause: "mergeoncreate", kind: Kind::Div0, pos, n, constrained: false, indexed, after: vec![], modelled: true, cons_probe: vec![], may_succeed: false }
         }
         // SET with two items, the second violates the unique constraint after the first was applied
         13 => {
@@ -220,7 +223,7 @@ fn gen_case(rng: &mut Rng, n: usize, pos: usize, which: u64) -> Planted {
                 ],
                 ret: None,
             };
-            Planted { setup, st, clause: "set2", kind: Kind::Dup, pos, n, constrained: true, indexed, after: vec![], modelled: true, cons_probe: vec![] }
+            Planted { setup, st, clause: "set2", kind: Kind::Dup, pos, n, constrained: true, indexed, after: vec![], modelled: true, cons_probe: vec![], may_succeed: false }
         }
         // created path with constrained node values, failure afterwards in the relationship property:
         // the taken-back nodes must also release their unique values (probed after the statement)
@@ -234,7 +237,7 @@ fn gen_case(rng: &mut Rng, n: usize, pos: usize, which: u64) -> Planted {
                 ],
                 ret: None,
             };
-            Planted { setup, st, clause: "createpath-constrained", kind: Kind::Div0, pos, n, constrained: true, indexed, after: vec![(format!("CREATE (:L0 {{k0: {}}})", 70 + pos), true)], modelled: true, cons_probe: vec![] }
+            Planted { setup, st, clause: "createpath-constrained", kind: Kind::Div0, pos, n, constrained: true, indexed, after: vec![(format!("CREATE (:L0 {{k0: {}}})", 70 + pos), true)], modelled: true, cons_probe: vec![], may_succeed: false }
         }
         // DELETE of a connected node at row `pos`
         _ => {
@@ -251,7 +254,7 @@ fn gen_case(rng: &mut Rng, n: usize, pos: usize, which: u64) -> Planted {
                 ret: None,
             };
             let _ = constrained;
-            Planted { setup, st, clause: "delete", kind: Kind::Connected, pos, n, constrained: false, indexed, after: vec![], modelled: true, cons_probe: vec![] }
+            Planted { setup, st, clause: "delete", kind: Kind::Connected, pos, n, constrained: false, indexed, after: vec![], modelled: true, cons_probe: vec![], may_succeed: false }
         }
     }
 }
@@ -382,7 +385,7 @@ fn gen_multi(_rng: &mut Rng, fam: u64, constrained: bool, m: usize, j: usize, ki
         after.push((format!("CREATE (:L0 {{k0: {}}})", 500), true)); // 200 + 300 must not be held
         after.push((format!("CREATE (:L0 {{k0: {}}})", 200), false)); // the node still holds 200
     }
-    Planted { setup, st: St { cls, ret: None }, clause, kind, pos, n, constrained, indexed, after, modelled: !constrained && fam != 1, cons_probe: vec![] }
+    Planted { setup, st: St { cls, ret: None }, clause, kind, pos, n, constrained, indexed, after, modelled: !constrained && fam != 1, cons_probe: vec![], may_succeed: false }
 }
 
 /// What exactly a failing row had already made: CREATE of 1-3 relationships per row between nodes that
@@ -422,7 +425,7 @@ fn gen_rel(rng: &mut Rng, pat: u64, n: usize, pos: usize) -> Planted {
         ],
         ret: None,
     };
-    Planted { setup, st, clause, kind: Kind::Div0, pos, n, constrained: false, indexed: false, after: vec![], modelled: true, cons_probe: vec![] }
+    Planted { setup, st, clause, kind: Kind::Div0, pos, n, constrained: false, indexed: false, after: vec![], modelled: true, cons_probe: vec![], may_succeed: false }
 }
 
 /// CREATE without any row source (CreateNodeOperator / CreateNodesAndEdgesOperator): the one "row" makes several
@@ -436,7 +439,7 @@ fn gen_rowless(which: u64) -> Planted {
         2 => (vec![CPath { a: n0(7), seg: None }, CPath { a: n0(8), seg: None }, CPath { a: n0(1), seg: None }], "rowless-create-3nodes"),
         _ => (vec![CPath { a: n0(1), seg: None }, CPath { a: n0(9), seg: None }], "rowless-create-first-fails"),
     };
-    Planted { setup, st: St { cls: vec![Cl::Create(paths)], ret: None }, clause, kind: Kind::Dup, pos: 0, n: 1, constrained: true, indexed: false, after: vec![("CREATE (:L0 {k0: 5})".into(), true)], modelled: false, cons_probe: vec![] }
+    Planted { setup, st: St { cls: vec![Cl::Create(paths)], ret: None }, clause, kind: Kind::Dup, pos: 0, n: 1, constrained: true, indexed: false, after: vec![("CREATE (:L0 {k0: 5})".into(), true)], modelled: false, cons_probe: vec![], may_succeed: false }
 }
 
 /// Take-back must not leave index / constraint bookkeeping behind.  Two unique constraints over the SAME key on two
@@ -471,7 +474,7 @@ fn gen_cons(which: u64, flip: bool) -> Planted {
         _ => (vec![Cl::Create(vec![CPath { a: NPat { var: Some(1), labels: vec![0], props: vec![(0, int(55)), (1, int(88))] }, seg: None }])], "cons2keys-create"),
     };
     let cons_probe = if two_labels { vec![(0, 0, vec![77, 60, 5]), (1, 0, vec![77, 60, 5])] } else { vec![(0, 0, vec![55, 1]), (0, 1, vec![88, 55])] };
-    Planted { setup, st: St { cls, ret: None }, clause, kind: Kind::Dup, pos: 0, n: 1, constrained: true, indexed: false, after: vec![], modelled: false, cons_probe }
+    Planted { setup, st: St { cls, ret: None }, clause, kind: Kind::Dup, pos: 0, n: 1, constrained: true, indexed: false, after: vec![], modelled: false, cons_probe, may_succeed: false }
 }
 
 /// `CREATE (:L {k: v})` must succeed iff no live node holds v under L — asked after an id-recycling CREATE
@@ -498,6 +501,40 @@ fn constraint_probe(store: &mut GraphStore, probes: &[(u32, u32, Vec<i64>)]) -> 
         }
     }
     None
+}
+
+/// Relationship-pattern MERGE (merge_path) with 2-3 ON MATCH SET / ON CREATE SET items, the item at `j` failing:
+/// by a unique-constraint refusal (`dup`; on the unchanged tree that refusal is dropped and the statement answers
+/// OK, which C05 does not judge) or by an expression error (controls).  `create`: the pattern does not exist yet.
+fn gen_mergerel(create: bool, m: usize, j: usize, kind: Kind, unwind: bool) -> Planted {
+    let setup: Vec<String> = vec![
+        "CREATE CONSTRAINT ON (n:L1) ASSERT n.k0 IS UNIQUE".into(),
+        "CREATE (:L1 {k0: 5})".into(),
+        "CREATE (:L0 {k2: 1, k1: 0, k5: 0, k6: 's'})-[:T0]->(:L1 {k0: 6})".into(),
+    ];
+    let (ida, idb) = if create { (2, 7) } else { (1, 6) };
+    let a = NPat { var: Some(1), labels: vec![0], props: vec![(2, int(ida))] };
+    let b = NPat { var: Some(2), labels: vec![1], props: vec![(0, int(idb))] };
+    let failing = match kind {
+        Kind::Dup => SetItem::Prop(2, 0, int(5)),
+        Kind::Div0 => SetItem::Prop(1, 3, bin("div", int(12), if create { bin("sub", Ex::Prop(1, 2), int(2)) } else { Ex::Prop(1, 5) })),
+        _ => SetItem::Prop(1, 3, bin("sub", int(9), if create { s("s") } else { Ex::Prop(1, 6) })),
+    };
+    let good = |t: usize| match t {
+        0 => SetItem::Prop(1, 1, int(1)),
+        1 => SetItem::Prop(1, 4, int(7)),
+        _ => SetItem::Prop(2, 4, int(8)),
+    };
+    let items: Vec<SetItem> = (0..m).map(|t| if t == j { failing.clone() } else { good(t) }).collect();
+    let clause: &'static str = match (create, j > 0) {
+        (false, false) => "mergerel-onmatch-itemfirst",
+        (false, true) => "mergerel-onmatch-itemlater",
+        (true, false) => "mergerel-oncreate-itemfirst",
+        (true, true) => "mergerel-oncreate-itemlater",
+    };
+    let merge = if create { Cl::MergeRelOn(a, 0, b, items, vec![]) } else { Cl::MergeRelOn(a, 0, b, vec![], items) };
+    let cls = if unwind { vec![Cl::Unwind(Ex::List(vec![int(1)]), 0), merge] } else { vec![merge] };
+    Planted { setup, st: St { cls, ret: None }, clause, kind, pos: 0, n: 1, constrained: true, indexed: false, after: vec![], modelled: false, cons_probe: vec![(1, 0, vec![5, 6, 7])], may_succeed: kind == Kind::Dup }
 }
 
 struct Done {
@@ -585,6 +622,7 @@ fn main() {
         probe: Option<String>,
         cons_same: bool,
         modelled: bool,
+        may_succeed: bool,
     }
     let mut flat: Vec<Flat> = vec![];
 
@@ -623,7 +661,8 @@ fn main() {
                 Err((k, _)) => Err(k.tag().to_string()),
             };
             let modelled = kind != "dup";
-            flat.push(Flat { setup: setup.join("; "), term, text, clause, kind, pos, pre, post, out, probe, cons_same: c0 == c1, modelled });
+            let clause_may_succeed = clause.starts_with("mergerel-on") && kind == "dup";
+            flat.push(Flat { setup: setup.join("; "), term, text, clause, kind, pos, pre, post, out, probe, cons_same: c0 == c1, modelled, may_succeed: clause_may_succeed });
         }
     }
     rep.count_n("corpus_cases", flat.len() as u64);
@@ -651,8 +690,22 @@ fn main() {
                             probe: d.probe,
                             cons_same: d.cons_same,
                             modelled: d.p.kind != Kind::Dup && d.p.modelled,
+                            may_succeed: d.p.may_succeed,
                         });
                         let _ = (d.p.n, d.p.constrained, d.p.indexed);
+                    }
+                }
+            }
+        }
+        // relationship-pattern MERGE with several ON MATCH / ON CREATE items, one of them refused or failing
+        for create in [false, true] {
+            for m in 2..=3usize {
+                for j in 0..m {
+                    for kind in [Kind::Dup, Kind::Div0, Kind::Type] {
+                        for unwind in [false, true] {
+                            let d = run_case(gen_mergerel(create, m, j, kind, unwind));
+                            flat.push(Flat { setup: d.p.setup.join("; "), term: d.p.st.model(), text: d.text, clause: d.p.clause.to_string(), kind: d.p.kind.tag().to_string(), pos: d.p.pos, pre: d.pre, post: d.post, out: d.out, probe: d.probe, cons_same: d.cons_same, modelled: d.p.modelled, may_succeed: d.p.may_succeed });
+                        }
                     }
                 }
             }
@@ -663,7 +716,7 @@ fn main() {
             for flip in [false, true] {
                 for _ in 0..16 {
                     let d = run_case(gen_cons(which, flip));
-                    flat.push(Flat { setup: d.p.setup.join("; "), term: d.p.st.model(), text: d.text, clause: d.p.clause.to_string(), kind: d.p.kind.tag().to_string(), pos: d.p.pos, pre: d.pre, post: d.post, out: d.out, probe: d.probe, cons_same: d.cons_same, modelled: d.p.modelled });
+                    flat.push(Flat { setup: d.p.setup.join("; "), term: d.p.st.model(), text: d.text, clause: d.p.clause.to_string(), kind: d.p.kind.tag().to_string(), pos: d.p.pos, pre: d.pre, post: d.post, out: d.out, probe: d.probe, cons_same: d.cons_same, modelled: d.p.modelled, may_succeed: d.p.may_succeed });
                 }
             }
         }
@@ -671,12 +724,12 @@ fn main() {
         for pat in 0..11u64 {
             for (n, pos) in [(1usize, 0usize), (3, 0), (3, 2), (2, 1)] {
                 let d = run_case(gen_rel(&mut rng, pat, n, pos));
-                flat.push(Flat { setup: d.p.setup.join("; "), term: d.p.st.model(), text: d.text, clause: d.p.clause.to_string(), kind: d.p.kind.tag().to_string(), pos: d.p.pos, pre: d.pre, post: d.post, out: d.out, probe: d.probe, cons_same: d.cons_same, modelled: d.p.modelled });
+                flat.push(Flat { setup: d.p.setup.join("; "), term: d.p.st.model(), text: d.text, clause: d.p.clause.to_string(), kind: d.p.kind.tag().to_string(), pos: d.p.pos, pre: d.pre, post: d.post, out: d.out, probe: d.probe, cons_same: d.cons_same, modelled: d.p.modelled, may_succeed: d.p.may_succeed });
             }
         }
         for which in 0..4u64 {
             let d = run_case(gen_rowless(which));
-            flat.push(Flat { setup: d.p.setup.join("; "), term: d.p.st.model(), text: d.text, clause: d.p.clause.to_string(), kind: d.p.kind.tag().to_string(), pos: d.p.pos, pre: d.pre, post: d.post, out: d.out, probe: d.probe, cons_same: d.cons_same, modelled: d.p.modelled });
+            flat.push(Flat { setup: d.p.setup.join("; "), term: d.p.st.model(), text: d.text, clause: d.p.clause.to_string(), kind: d.p.kind.tag().to_string(), pos: d.p.pos, pre: d.pre, post: d.post, out: d.out, probe: d.probe, cons_same: d.cons_same, modelled: d.p.modelled, may_succeed: d.p.may_succeed });
         }
         // multi-item clauses: family x item count x failing item x failure kind x (rows, failing row)
         for fam in 0..4u64 {
@@ -704,6 +757,7 @@ fn main() {
                                 probe: d.probe,
                                 cons_same: d.cons_same,
                                 modelled: d.p.modelled,
+                                may_succeed: d.p.may_succeed,
                             });
                         }
                     }
@@ -757,6 +811,11 @@ fn main() {
             if first_break.is_none() {
                 first_break = Some(body.clone());
             }
+            continue;
+        }
+        if !failed && f.may_succeed {
+            // a refusal the engine drops silently: the statement did not fail, C05 says nothing about it
+            rep.count(&format!("refusal_dropped_statement_ok:{}", f.clause));
             continue;
         }
         if !failed {
